@@ -465,3 +465,99 @@ def apply_history(args):
         return {'label': label, 'ev': ev, 'info': info}
     finally:
         common.cleanup(d)
+
+
+# ----------------------------------------------------------------------
+# the real set-up of the response data (Orificing.run_parametric reading
+# back response tables) followed by the real distribution
+# ----------------------------------------------------------------------
+
+def parametric_history(args):
+    """Worker: a real core whose two grouped types interleave in id order;
+    real group_by_power, real run_parametric in recycle mode (response
+    tables written here, one per type, with different pressure-drop curves),
+    real distribute.  The type of every assembly, and with it the flow at
+    which that assembly reaches the pressure-drop limit, comes from the
+    assignment as written.  Events: grouping summary (Apply-free), DStart /
+    DIter / DEnd as in history()."""
+    label, spec = args
+    import os
+    import random
+    dassh = common.import_dassh()
+    rng = random.Random(spec['seed'])
+    d = common.workdir('orfp-' + label)
+    ev = []
+    info = {'label': label, 'spec': spec}
+    try:
+        names = spec['names']
+        n = len(names)
+        OF = 0.058
+        types = {'ta': cases.fitted_type(2, OF),
+                 'tb': cases.fitted_type(2, OF, p2d=1.22)}
+        lay = [(r_, p_, names[i]) for i, (r_, p_) in
+               enumerate(scenarios.layout_positions(n))]
+        npin = cases.n_pins(2)
+        powers = [2.0e4 * npin * f for f in spec['pf']]
+        c = scenarios.make_core(rng, types, lay, [0.5] * n, gap_model='none',
+                                coolant='const', asm_power=powers, L=0.3,
+                                ncell=1, power_order=2)
+        ptrue = [cases.asm_power_integral(c, i + 1) for i in range(n)]
+        t_out = spec.get('t_out', 773.15)
+        order = spec.get('order', ['ta', 'tb'])
+        c['orificing'] = {
+            'assemblies_to_group': list(order),
+            'n_groups': spec['ng'], 'value_to_optimize': 'peak coolant temp',
+            'bulk_coolant_temp': t_out,
+            'group_cutoff': spec.get('cutoff', 0.05),
+            'group_cutoff_delta': spec.get('delta', 0.005),
+            'recycle_results': True}
+        if spec.get('dpl') is not None:
+            c['orificing']['pressure_drop_limit'] = spec['dpl']
+        path = cases.write_case(c, str(d))
+        tabs = []
+        os.makedirs(str(d / '_parametric'), exist_ok=True)
+        for ti, nm in enumerate(order):
+            sel = [ptrue[i] for i in range(n) if names[i] == nm]
+            tab = table(float(np.mean(sel)), spec['C'][nm], spec['K'][nm],
+                        curve=spec.get('curve', 0.0))
+            np.savetxt(str(d / '_parametric' / f'data_{nm}.csv'), tab,
+                       delimiter=',')
+            tabs.append(tab)
+        try:
+            inp = dassh.DASSH_Input(path)
+            orf = dassh.Orificing(inp)
+            ob = Observer(dassh, orf)
+            orf.group_by_power()
+            orf.run_parametric()
+        except SystemExit:
+            ev.append({'e': 'Crash', 'stage': 'group', 'exc': 'SystemExit',
+                       'msg': 'grouping stopped with an error'})
+            info['group'] = 'error'
+            return {'label': label, 'ev': ev, 'info': info}
+        except BaseException as e:
+            ev.append({'e': 'Crash', 'stage': 'parametric',
+                       'exc': type(e).__name__, 'msg': str(e)[:200]})
+            return {'label': label, 'ev': ev, 'info': info}
+        info['group'] = 'ok'
+        gd = orf.group_data
+        ids = [int(x) for x in gd[:, 0]]
+        if sorted(ids) != list(range(n)):
+            ev.append({'e': 'Crash', 'stage': 'group', 'exc': 'Partition',
+                       'msg': f'assemblies grouped: {ids}'})
+            return {'label': label, 'ev': ev, 'info': info}
+        # type (index into the requested order) of the assembly in each row
+        row_types = [order.index(names[i]) for i in ids]
+        mt = float(np.sum(ptrue)) / CP / (t_out - T_IN)
+        try:
+            dev, m = distribute_events(ob, orf, spec, row_types, tabs, mt)
+        except common.MachineryError:
+            raise
+        except BaseException as e:
+            ev.append({'e': 'Crash', 'stage': 'round0',
+                       'exc': type(e).__name__, 'msg': str(e)[:200]})
+            return {'label': label, 'ev': ev, 'info': info}
+        ev += dev
+        info['dist'] = ['ok' if m is not None else 'error']
+        return {'label': label, 'ev': ev, 'info': info}
+    finally:
+        common.cleanup(d)
